@@ -1,5 +1,9 @@
 import Req.Driver.Proto
 import Req.H1.Response
+import Req.C03.H2Cut
+import Req.C03.H2Pool
+import Req.C03.H3Cut
+import Req.C03.GzipCut
 /-! Driver lanes of C03.
 
 `c03cut <G|H> <eof|hold> <hex stream> <k>`: the peer sends the first `k` bytes of the stream in
@@ -8,6 +12,24 @@ open (`hold`, only used with `k` = whole stream).  Answer: what the caller of th
 must observe — `fail` or `ok code=… body=…` — and how many connections the client will have
 dialled after a second request (`dials=1` iff the model's `connReusable` allows reuse).
 Mode `early`: connection kept open, but the caller closes the body without reading it.
+
+`c03h2 <head 0|1> <stream id> <events> <mode s|a>`: HTTP/2 — the frames and connection events the
+scripted peer produces for the first request of a fresh client (`H;<es>;<fields>` HEADERS,
+`D;<es>;<padded>;<hex>` DATA, `R;<code>` RST_STREAM, `G;<last>;<code>` GOAWAY, `X` the connection
+is lost — at a frame boundary or inside a frame).  Answer: what the caller observes (`retry` =
+the call failed before the response head with an error the transport replays a body-less request
+for; mode `s` = streaming caller: a body failure names the bytes delivered before it) and how
+many connections will have been dialled after the next request (`dials=1` iff the connection can
+take a new request and is still in the pool).  Mode `c<j>`: the streaming caller reads `j` bytes and
+closes the body early.
+
+`c03h3 <head 0|1> <segs> <fin|reset|close> <fieldlists> <mode s|a>`: HTTP/3 — the bytes of the
+response stream as they arrive, how the stream ends (FIN, stream reset, connection close) and the
+decoded field list of every HEADERS frame (QPACK is external).  Answer: `fail` / `fail-call` /
+`fail-body delivered=…` / `ok status=… body=…` and the dials after the next request (2 iff the
+call failed — `RoundTripOpt` drops the cached connection — or the connection was closed).
+
+`c03gz`: see `laneGz`.
 -/
 namespace Req.Driver.L.C03
 open Req.Proto Req.H1
@@ -32,8 +54,122 @@ def laneCut : List String → String
     | _, _ => "bad-op"
   | _ => "bad-op"
 
+/-! ### HTTP/2 -/
+open Req.C03 Req.C02
+
+def parseBool01 (s : String) : Option Bool :=
+  if s == "0" then some false else if s == "1" then some true else none
+
+def decodeKV (s : String) : Option (Bytes × Bytes) :=
+  match s.splitOn ":" with
+  | [k, v] => do let k ← decodeHex k; let v ← decodeHex v; pure (k, v)
+  | _ => none
+
+def decodeFields (s : String) : Option (List (Bytes × Bytes)) :=
+  if s == "-" then some [] else (s.splitOn ",").mapM decodeKV
+
+def decodeH2XEv (s : String) : Option H2XEv :=
+  match s.splitOn ";" with
+  | ["H", es, fs] => do
+    let es ← parseBool01 es
+    let fs ← decodeFields fs
+    pure (.headers fs es)
+  | ["D", es, pad, d] => do
+    let es ← parseBool01 es
+    let pad ← parseBool01 pad
+    let d ← decodeHex d
+    pure (.data d pad es)
+  | ["R", c] => c.toNat?.map H2XEv.rst
+  | ["G", last, c] => do
+    let last ← last.toNat?
+    let c ← c.toNat?
+    pure (.goAway last c)
+  | ["X"] => some .connLost
+  | _ => none
+
+def decodeH2XEvs (s : String) : Option (List H2XEv) :=
+  if s == "none" then some [] else (s.splitOn "/").mapM decodeH2XEv
+
+def laneH2 : List String → String
+  | [hd, sid, evs, mode] =>
+    match parseBool01 hd, sid.toNat?, decodeH2XEvs evs with
+    | some isHead, some sid, some evs =>
+      if mode.startsWith "c" then
+        -- the streaming caller reads `j` bytes, then closes the body (`transportResponseBody.Close`)
+        match (mode.drop 1).toNat? with
+        | none => "bad-op"
+        | some j =>
+          let (obs, x) := (H2X.init sid isHead).run (evs.map .ev ++ [.read j, .closeBody, .read 1])
+          let after := match obs.getLast? with
+            | some (some (_, some .closedBody)) => "closed"
+            | _ => "not-closed"
+          (match x.st.res with
+           | none => "fail-call"
+           | some _ => "closed delivered=" ++ encodeHex (outOf obs) ++ " then=" ++ after)
+          ++ " dials=" ++ toString (h2DialsAfterNext x)
+      else
+      if mode != "s" && mode != "a" then "bad-op" else
+      let x := ((H2X.init sid isHead).run (evs.map .ev)).2
+      let dials := " dials=" ++ toString (h2DialsAfterNext x)
+      (match x.outcome 512 with
+       | .pending => "pending"
+       | .callFailed true => "retry"
+       | .callFailed false => if mode == "s" then "fail-call" else "fail"
+       | .ok st body => "ok status=" ++ toString st ++ " body=" ++ encodeHex body
+       | .bodyFailed _ d _ => if mode == "s" then "fail-body delivered=" ++ encodeHex d else "fail"
+       | .bodyBlocked _ d => "blocked delivered=" ++ encodeHex d) ++ dials
+    | _, _, _ => "bad-op"
+  | _ => "bad-op"
+
+/-! ### HTTP/3 -/
+
+def decodeFieldLists (s : String) : Option (List (List (Bytes × Bytes))) :=
+  if s == "none" then some [] else (s.splitOn "/").mapM decodeFields
+
+def parseH3End : String → Option H3End
+  | "fin" => some .fin
+  | "reset" => some (.reset 0)
+  | "close" => some (.connClose 0)
+  | _ => none
+
+def laneH3 : List String → String
+  | [hd, segs, fin, fls, mode] =>
+    match parseBool01 hd, decodeList segs, parseH3End fin, decodeFieldLists fls with
+    | some isHead, some segs, some e, some fls =>
+      if mode != "s" && mode != "a" then "bad-op" else
+      let o := h3Outcome isHead segs e.net fls 10485760 512
+      (match o with
+       | .callFailed => if mode == "s" then "fail-call" else "fail"
+       | .ok st body => "ok status=" ++ toString st ++ " body=" ++ encodeHex body
+       | .bodyFailed _ d _ =>
+         -- after a reset / connection close the bytes still in flight are lost: only FIN fixes them
+         if mode == "s" && e == .fin then "fail-body delivered=" ++ encodeHex d
+         else if mode == "s" then "fail-body" else "fail"
+       | .bodyOpen _ d => "open delivered=" ++ encodeHex d)
+      ++ " dials=" ++ toString (h3DialsAfterSecond e o)
+    | _, _, _, _ => "bad-op"
+  | _ => "bad-op"
+
+/-! ### gzip -/
+
+/-- `c03gz <hex stream> <k> <zlen> <hex plain>`: a gzip-encoded HTTP/1.1 response cut at `k`, then
+EOF; `zlen` / `plain` = the reference decompressor's knowledge of the one complete stream. -/
+def laneGz : List String → String
+  | [hex, ks, zl, plain] =>
+    match decodeHex hex, ks.toNat?, zl.toNat?, decodeHex plain with
+    | some s, some k, some zlen, some plain =>
+      match gzOutcomeRef 4096 (s.take k) zlen plain with
+      | none => "fail"
+      | some (out, .eof) => "ok body=" ++ encodeHex out
+      | some (_, .err _) => "fail"
+    | _, _, _, _ => "bad-op"
+  | _ => "bad-op"
+
 def lanes : List (String × (List String → String)) := [
-  ("c03cut", laneCut)
+  ("c03cut", laneCut),
+  ("c03gz", laneGz),
+  ("c03h2", laneH2),
+  ("c03h3", laneH3)
 ]
 
 end Req.Driver.L.C03
